@@ -389,7 +389,8 @@ class BpWorld(object):
         self.emit('ClOut', b=rec, mtu=clampi(mtu) if mtu is not None else -1, agedelta=agedelta, fragok=fragok, fx=fx,
                   next=str(tx_params.get('next', '')) if isinstance(tx_params, dict) else '')
 
-    def recv(self, octets, note='', sec='none', plain='', nsec=0, expect_decode_error=False, via=None):
+    def recv(self, octets, note='', sec='none', plain='', nsec=0, expect_decode_error=False, via=None,
+             corrupt=False):
         ''' The CLA hands a received bundle to the agent (as _cl_recv_bundle_finish does).
         sec/plain/nsec: what the generator of the bundle knows about its security blocks. '''
         rec, bun = abstract_bundle(octets)
@@ -400,7 +401,8 @@ class BpWorld(object):
         if rec['ok'] and rec['base'] not in self.rx_age:
             ages = [b['age'] for b in rec['blocks'] if b['kind'] == 'age']
             self.rx_age[rec['base']] = (ages[0] if ages else None, dtn_now_ms())
-        self.emit('Recv', b=rec, rx=rx, tx=tx, own=bool(rec['ok'] and rec['src'] == self.node_id),
+        self.emit('Recv', b=rec, corrupt=bool(corrupt), rx=rx, tx=tx,
+                  own=bool(rec['ok'] and rec['src'] == self.node_id),
                   admin=bool(rec['ok'] and rec['dest'] == self.node_id),
                   appdest=bool(rec['ok'] and self.safe_endpoint is not None and rec['dest'] == self.safe_endpoint),
                   sec=sec, plain=plain, nsec=nsec, idle0=len(GLib.SCHED.sources), btypes=btypes, note=note,
@@ -418,7 +420,7 @@ class BpWorld(object):
         except Exception as err:
             # the CLA adaptor decodes before calling the agent: an undecodable input may legitimately raise there
             self.emit('Escape', where='recv', exc=type(err).__name__,
-                      expected=bool(expect_decode_error or not rec['ok']))
+                      expected=bool(expect_decode_error or corrupt or not rec['ok']))
         self.boundary('recv')
 
     def boundary(self, name):
